@@ -173,7 +173,67 @@ def rules(ctx, tier):
         polarity(ctx, r, sb, agg, report)
     r.need(3, "orphan / missing / corrupted pushes")
     out.append(r.finish())
+
+    r = Rule("R7", "clean-up is complete: a clean-up entry point that walks lists of the report walks each of them on every "
+                   "path to its Ok return (or skips a list only because that list is empty)",
+             "clean-up returns Ok having removed nothing: leftover staging files or stray files stay behind although "
+             "they were reported, and the store is not restored to the exact state of C07")
+    cleanup_complete(ctx, r, report)
+    r.need(3, "report lists walked by the clean-up entry points")
+    out.append(r.finish())
     return out
+
+
+def cleanup_complete(ctx, r, report):
+    prog = ctx.prog
+    must = ctx.must(None)
+    vec_fields = set(f["name"] for f in prog.adts[report]["variants"][0]["fields"]
+                     if prog.adt_of(f["ty"])[0] == "std::vec::Vec")
+    for b in ctx.api_roots():
+        if b.argc < 1 or prog.adt_of(b.locals[1])[0] != report:
+            continue
+        removes = [e for e in ctx.fx.effects if e.site.body.path == b.path and e.kind in ("FS_UNLINK", "FS_RENAME")]
+        if not removes:
+            continue
+        sl = Slicer(ctx.world, b)
+        walks = {}
+        for s in b.calls():
+            if (s.path or "") != "std::iter::IntoIterator::into_iter" or not s.term["args"]:
+                continue
+            lv = sl.leaves_of_operand(s.term["args"][0])
+            if len(lv) == 1:
+                l = list(lv)[0]
+                if l[0] == "param" and l[1] == 1 and len(l[2]) == 1 and l[2][0] in vec_fields:
+                    walks.setdefault(l[2][0], []).append(s)
+        if not walks:
+            continue
+        rf = must.rf(b)
+        ok_exits = [x for x, k in rf.forwarded.items() if k == "ok" or isinstance(k, tuple)]
+        for f, sites in sorted(walks.items()):
+            bad = []
+            for x in ok_exits:
+                if any(b.dominates(s.bb, x) for s in sites):
+                    continue
+                # skipped only because this very list is empty
+                excused = False
+                for sw in b.normal_blocks():
+                    c = cfgutil.switch_condition(b, sw)
+                    if not c or c[0] != "call" or not (c[1] or "").endswith("::is_empty"):
+                        continue
+                    rv = c[2]
+                    lv = sl.leaves_of_operand(rv["args"][0])
+                    if not (len(lv) == 1 and list(lv)[0][0] == "param" and list(lv)[0][2] == (f,)):
+                        continue
+                    t_true, t_false = cfgutil.true_false_edges(b, sw)
+                    tgt = t_false if c[3] else t_true
+                    if tgt is not None and cfgutil.edge_dominates(b, (sw, tgt), x):
+                        excused = True
+                if not excused:
+                    bad.append(x)
+            r.check(not bad, "walks:%s" % f, b,
+                    "%s walks report.%s on every path to its Ok return" % (b.path.split("::")[-1], f),
+                    "%s can return Ok (%s) without having walked report.%s: what the scan reported there is left behind" % (
+                        b.path, ", ".join("%s:%d" % (b.file, b.blocks[x]["span"]["line"]) for x in bad), f))
 
 
 def membership_guard(ctx, r, b, site, report):
